@@ -42,6 +42,9 @@ func checkC11(w *World, tier string) *Report {
 	addRegistrationPathRule(w, r, "R11.7")
 	addNeverFailsRule(w, r, "R11.8")
 	addR105(w, r, "R10.5") // a change journaled for a registered key reaches the record on every path (shared with C10/C13)
+	addKeyTreeQueryPurityRule(w, r, "R11.9")
+	addFullPathLookupRule(w, r, "R11.10")
+	r.Explanation += " R11.9 every method of StorageKey, StateChanges and StorageChanges other than the reviewed mutators stores nothing outside its own locals (no cached child list or memo that registrations would have to keep in step); R11.10 in FindKeyIndices the not-found side of every map look-up leads to `return nil` without a further look-up: a name path answers only when the whole path is registered, as the look-up by slot does."
 	return r
 }
 
